@@ -16,7 +16,7 @@ VARIABLES pc, idOf, pending, ps, batch, agent, cur, seen, w, wreq, wresp, plook,
           inflight, delivered, calls, handed, faults, hit, l
 
 R == INSTANCE Relay WITH Req <- TReq, IdPool <- TIds, Poller <- TPoller, AgentPoller <- TAgentPoller,
-                         LruCap <- 1000, MaxFaults <- 1000000, Victims <- TVictims, UniqueIds <- FALSE
+                         LruCap <- 1000, MaxFaults <- 1000000, Victims <- TVictims, UniqueIds <- FALSE, CleanCut <- FALSE
 
 rvars == <<pc, idOf, pending, ps, batch, agent, cur, seen, w, wreq, wresp, plook, inflight, delivered, calls, handed, faults, hit>>
 
